@@ -2,7 +2,7 @@
     Statements only; proofs are in Proofs/Compare.v.  The scanner lemma is Proofs/Scan.v:
     str_to_number recognises exactly the StringNumericLiteral grammar (str_to_number_spec). *)
 From Coq Require Import List Bool.
-From JL Require Import Base.Json Base.Dec2Flt Base.Monad Model.JsOp Model.Ops Spec.Specs Proofs.Compare Proofs.Scan.
+From JL Require Import Base.Json Base.F64 Base.Str Base.Dec2Flt Base.Monad Model.JsOp Model.Ops Spec.Specs Proofs.Compare Proofs.Scan Proofs.CharTables Gen.CharTable.
 From Coq Require Import String NArith ZArith.
 Local Open Scope string_scope.
 Import ListNotations.
@@ -36,6 +36,25 @@ Proof.
   - intros b. destruct b; reflexivity.
 Qed.
 Print Assumptions C07_containers_and_null.
+
+(** the literal tables of src/js_op.rs, regenerated from the source on every run, are the model's:
+    the white space trimmed before a string is read as a number, and the radix prefixes *)
+Theorem C07_source_tables :
+  (forall c, in_ranges code_js_ws_ranges c = is_js_ws c) /\ (forall s, code_radix s = model_radix s) /\
+  (forall s0, str_to_number s0 =
+     let s := trim_both is_js_ws s0 in
+     match s with
+     | nil => Some f64_zero
+     | _ => match model_radix s with
+            | Some rdx => radix_digits_to_number (skipn 2 s) rdx
+            | None => match parse_decimal_prefix s with
+                      | Some (v, len) => if Nat.eqb len (List.length s) then Some v else None
+                      | None => None
+                      end
+            end
+     end).
+Proof. exact (conj code_js_ws_is_model (conj code_radix_is_model str_to_number_uses_model_radix)). Qed.
+Print Assumptions C07_source_tables.
 
 Example C07_nonvacuous :
   es_eq (Str (lit " 1 ")) (Num (PosInt 1%N)) = true /\
